@@ -12,6 +12,15 @@ ALL = [f"C{i:02d}" for i in range(1, 19)]
 PENDING_REASON = "check not built yet in this round (work in progress; DESIGN.md §6 gives the staging) — no claim is made until its check passes on the clean tree"
 
 
+def _fix_commits():
+    import subprocess
+    try:
+        out = subprocess.check_output(['git', '-C', '/repo', 'log', '--format=%h', '--grep=^fix:'], text=True).split()
+        return ' '.join(reversed(out))
+    except Exception:
+        return 'see git log'
+
+
 def main():
     checks, na, modules = [], [], []
     claimed = set((HERE / "claimed.txt").read_text().split())
@@ -60,7 +69,9 @@ def main():
         ],
         "checks": checks,
         "not_applicable": na,
-        "notes": "See DESIGN.md. known_findings.jsonl lists genuine defects (known / fixed). Exit codes: 0 held, 1 violation (VIOLATION line), 2 internal error or timeout.",
+        "notes": "See DESIGN.md (§0a status as built, §7 trusted base, §9 seeded changes). known_findings.jsonl lists genuine defects (known / fixed). "
+                 "Exit codes: 0 held, 1 violation (VIOLATION line), 2 internal error or timeout. No hook was added to /repo (hooks.source_commits is empty); "
+                 "the unguarded repairs of genuine defects are the commits of /repo whose message starts with 'fix:' (" + _fix_commits() + "), each a `fixed` entry of known_findings.jsonl.",
     }
     (VERIF / "MANIFEST.json").write_text(json.dumps(man, indent=1) + "\n")
     print(f"{len(checks)} checks, {len(na)} not claimed")
